@@ -13,6 +13,19 @@ for d in sorted(glob.glob(V+'/seeded/*/')):
     meta=json.load(open(d+'meta.json')) if os.path.exists(d+'meta.json') else {}
     prop=meta.get('property') or name.split('-')[0]
     extra=meta.get('also_check',[])
+    if meta.get('kind')=='neutral':
+        # behaviour-preserving edit: applied to a private copy, every listed check must NOT raise an alarm
+        w='/var/tmp/neutral-matrix'
+        sh('rm -rf %s; mkdir -p %s; git -C /repo archive HEAD | tar -x -C %s; cd %s && git init -q . && git apply %spatch.diff'%(w,w,w,w,d))
+        res=[]
+        for p in meta.get('check_props',[]):
+            r=sh('./check '+p, cwd=V, env=dict(os.environ, VERIF_DEV_REPO=w))
+            res.append((p,r.returncode))
+        sh('rm -rf '+w)
+        bad=[p for p,rc in res if rc==1]
+        rows.append((name,'(neutral)', 'FALSE ALARM' if bad else 'no alarm', ', '.join('%s:exit%d'%x for x in res)))
+        print(rows[-1], flush=True)
+        continue
     if sh('git -C /repo apply '+d+'patch.diff').returncode!=0:
         rows.append((name,prop,'PATCH DOES NOT APPLY','')); continue
     try:
